@@ -160,6 +160,24 @@ func runCoSi(c *vf.Check, n int) {
 				if !met && err == nil {
 					x.Failf(pk+"/policy-ignored", "%s policy %s: accepted although the policy is not met", id, name)
 				}
+				// the bits of the last mask byte beyond the last participant stand for nobody: setting them must not
+				// help a signature below the policy (each alone, and all of them)
+				if !met && n%8 != 0 {
+					var pads []byte
+					all := byte(0)
+					for b := n % 8; b < 8; b++ {
+						pads = append(pads, 1<<b)
+						all |= 1 << b
+					}
+					for _, pad := range append(pads, all) {
+						mut := append([]byte{}, sig...)
+						mut[len(mut)-1] |= pad
+						c.Eval(1)
+						if cosi.Verify(suite, pubs, msg, mut, pol) == nil {
+							x.Failf(pk+"/policy-ignored", "%s policy %s: accepted with the unused mask bits %08b set although only %d participants signed", id, name, pad, len(set))
+						}
+					}
+				}
 			}
 			if len(set) == n {
 				if err := cosi.Verify(suite, pubs, msg, sig, nil); err != nil {
